@@ -136,7 +136,7 @@ class AliasGen(Gen):
         if orig is None:
             return 0
         construct = r.choice(["init", "assign", "byvalue", "byvalue", "list_store", "field_store", "foreach", "return", "falls", "listlit", "boxing", "refcall", "same_twice",
-                              "same_twice", "part_ref", "part_ref", "global", "recursive", "operator", "operator", "nested_ref", "nested_ref", "foreach_source", "foreach_source", "two_refs", "two_refs"])
+                              "same_twice", "part_ref", "part_ref", "global", "recursive", "operator", "operator", "nested_ref", "nested_ref", "foreach_source", "foreach_source", "two_refs", "two_refs", "unbox_operand"])
         if ty in (RAHMEN, L(RAHMEN)):
             construct = r.choice(SAFE_FOR_RAHMEN)
         self.cells.add(("construct", construct, progcheck.tn(ty) + ("(nested)" if ty in (RAHMEN, L(RAHMEN)) else "")))
@@ -230,6 +230,24 @@ class AliasGen(Gen):
             if other is None:
                 return 0
             if not self.try_top([ExprStmt(Call(f, [orig], NICHTS))] + self.observe(orig) + self.observe(other)):
+                return 0
+            return self.obs - n0
+        elif construct == "unbox_operand":
+            # `(v als T) verkettet mit (f v)`: the unboxed payload of a Variable is an operand of its own; a later operand of the same
+            # expression that changes the Variable (through a Referenz parameter) must not change the operand already evaluated
+            pty = r.choice([T, L(Z)])
+            payload = self.nonempty_lit(pty)
+            box = self.declare(V, Cast(payload, V))
+            if box is None:
+                return 0
+            fn = self.fresh("ub")
+            p = Param("r_" + fn, V, ref=True)
+            newval = Cast(Lit(T, "NEU"), V) if r.random() < 0.5 else Cast(self.nonempty_lit(pty), V)
+            tail = Lit(T, "-ende") if pty == T else ListLit(L(Z), [Lit(Z, 99)])
+            f = FuncDecl(fn, [p], pty, [Assign(Var(p.name, V), newval), Return(tail)])
+            self.prog.items.append(f)
+            self.cells.add(("unbox_operand", progcheck.tn(pty)))
+            if not self.try_top(self.observe(Bin("verkettet", Cast(box, pty), Call(f, [box], pty), pty)) + self.observe(box)):
                 return 0
             return self.obs - n0
         elif construct == "two_refs":
